@@ -27,12 +27,23 @@
 //                         (randomized largest: "R omega" first).
 //   RAW n <n*n>           Eigen::SelfAdjointEigenSolver on a matrix whose triangles differ
 //                         (oracle contract: which triangle does Eigen read?). "R vecs", "R vals".
+//   PAR levels nthreads count {meth d k n <n*n>}*count
+//                         a batch of data sets (dense solver).  (a) every data set from plain serial code: the
+//                         matrix handed to the solver ("R sB<i>", same internal routines as FULL) and the public
+//                         API embedding ("R semb<i>"); (b) the same two, called from INSIDE the application's own
+//                         `#pragma omp parallel for num_threads(nthreads) schedule(static,1)` region (one data set
+//                         per thread), with omp_set_max_active_levels(levels): "R pB<i>", "R pemb<i>".  Exceptions
+//                         are caught per data set ("P serr<i> ..." / "P perr<i> ...").  "P team <observed team
+//                         size> ..." (OMP_THREAD_LIMIT may cut the team).
+//   solver = default: the eigen_method keyword is left unset; d < 0: the target_dimension keyword is left unset.
 // Numbers are decimal or hex-float on input, hex-float on output.
 // There is exactly ONE embedUsing call site (one instantiation of all methods) to keep the
 // build short.
 #include "spectral_common.hpp"
 
 #include <numeric>
+
+#include <omp.h>
 
 using namespace tapkee;
 using namespace vh;
@@ -85,16 +96,90 @@ static void print_omega(unsigned seed, int n, int d)
     print_matrix("omega", O);
 }
 
+// solver "default": the eigen_method keyword is left unset (the library default applies); d_unset: the
+// target_dimension keyword is left unset.  ONE embedUsing call site.
 static TapkeeOutput embed_once(const DimensionReductionMethod& m, const std::string& solver, int d, int k,
-                               const DenseMatrix& T, const Idx& idx)
+                               const DenseMatrix& T, const Idx& idx, bool d_unset = false)
 {
     table_kernel kcb{&T};
     table_distance dcb{&T};
-    return tapkee::with((method = m, target_dimension = d, num_neighbors = k, eigen_method = solver_of(solver),
-                         neighbors_method = Brute, check_connectivity = true))
-        .withKernel(kcb)
-        .withDistance(dcb)
-        .embedUsing(idx);
+    ParametersSet p = (method = m, num_neighbors = k, neighbors_method = Brute, check_connectivity = true);
+    if (!d_unset)
+        p.add(target_dimension = d);
+    if (solver != "default")
+        p.add(eigen_method = solver_of(solver));
+    return tapkee::with(p).withKernel(kcb).withDistance(dcb).embedUsing(idx);
+}
+
+// the statements of the embed() bodies that build the matrix handed to eigendecomposition_via
+static bool solver_input(const std::string& meth, int kk, const DenseMatrix& T, Idx& idx, DenseSymmetricMatrix& B,
+                         DenseSymmetricMatrix* geo2 = nullptr)
+{
+    if (meth == "mds")
+    {
+        table_distance dcb{&T};
+        B = tapkee_internal::compute_distance_matrix(idx.begin(), idx.end(), dcb);
+        tapkee_internal::centerMatrix(B);
+        B.array() *= -0.5;
+    }
+    else if (meth == "kpca")
+    {
+        table_kernel kcb{&T};
+        B = tapkee_internal::compute_centered_kernel_matrix(idx.begin(), idx.end(), kcb);
+    }
+    else if (meth == "isomap")
+    {
+        // the statements of IsomapImplementation::embed()
+        table_distance dcb{&T};
+        tapkee_internal::PlainDistance<Idx::iterator, table_distance> pd(dcb);
+        tapkee_internal::Neighbors nb =
+            tapkee_internal::find_neighbors(Brute, idx.begin(), idx.end(), pd, static_cast<IndexType>(kk), true);
+        B = tapkee_internal::compute_shortest_distances_matrix(idx.begin(), idx.end(), nb, dcb);
+        B = B.array().square();
+        B = (B + B.transpose()).eval() / 2.0;
+        if (geo2)
+            *geo2 = B;
+        tapkee_internal::centerMatrix(B);
+        B.array() *= -0.5;
+    }
+    else
+        return false;
+    return true;
+}
+
+struct ParSet
+{
+    std::string meth;
+    int d, k, n;
+    DenseMatrix T;
+    Idx idx;
+    // results: [0] plain serial call, [1] call made from inside the application's parallel region
+    DenseSymmetricMatrix B[2];
+    DenseMatrix E[2];
+    std::string err[2];
+    int team[2] = {0, 0};
+};
+
+static void par_one(ParSet& s, int slot)
+{
+    try
+    {
+        DimensionReductionMethod m = MultidimensionalScaling;
+        method_of(s.meth, m);
+        s.team[slot] = omp_get_num_threads();
+        solver_input(s.meth, s.k, s.T, s.idx, s.B[slot]);
+        s.E[slot] = embed_once(m, "dense", s.d, s.k, s.T, s.idx).embedding;
+    }
+    catch (const std::exception& e)
+    {
+        s.err[slot] = e.what();
+    }
+    catch (...)
+    {
+        s.err[slot] = "unknown exception";
+    }
+    for (auto& c : s.err[slot])
+        if (c == '\n' || c == '\r') c = ' ';
 }
 
 int main()
@@ -166,33 +251,10 @@ int main()
                 std::iota(idx.begin(), idx.end(), 0);
                 if (cmd == "FULL" && meth != "klle")
                 {
-                    DenseSymmetricMatrix B;
-                    if (meth == "mds")
-                    {
-                        table_distance dcb{&T};
-                        B = tapkee_internal::compute_distance_matrix(idx.begin(), idx.end(), dcb);
-                        tapkee_internal::centerMatrix(B);
-                        B.array() *= -0.5;
-                    }
-                    else if (meth == "kpca")
-                    {
-                        table_kernel kcb{&T};
-                        B = tapkee_internal::compute_centered_kernel_matrix(idx.begin(), idx.end(), kcb);
-                    }
-                    else
-                    {
-                        // the statements of IsomapImplementation::embed()
-                        table_distance dcb{&T};
-                        tapkee_internal::PlainDistance<Idx::iterator, table_distance> pd(dcb);
-                        tapkee_internal::Neighbors nb = tapkee_internal::find_neighbors(Brute, idx.begin(), idx.end(), pd,
-                                                                       static_cast<IndexType>(kk), true);
-                        B = tapkee_internal::compute_shortest_distances_matrix(idx.begin(), idx.end(), nb, dcb);
-                        B = B.array().square();
-                        B = (B + B.transpose()).eval() / 2.0;
-                        print_matrix("geo2", B);
-                        tapkee_internal::centerMatrix(B);
-                        B.array() *= -0.5;
-                    }
+                    DenseSymmetricMatrix B, geo2;
+                    solver_input(meth, kk, T, idx, B, &geo2);
+                    if (meth == "isomap")
+                        print_matrix("geo2", geo2);
                     print_matrix("B", B);
                     // the oracle call of eigendecomposition_impl_dense, replicated
                     DenseSymmetricMatrix W = B;
@@ -209,8 +271,64 @@ int main()
                 if (solver == "randomized")
                     print_omega(seed, n, d);
                 std::srand(seed);
-                TapkeeOutput out = embed_once(m, solver, d, kk, T, idx);
+                // d < 0: the target_dimension keyword is left unset (documented default 2)
+                TapkeeOutput out = embed_once(m, solver, d, kk, T, idx, d < 0);
                 print_matrix("emb", out.embedding);
+            }
+            else if (cmd == "PAR")
+            {
+                int levels, nthreads, count;
+                is >> levels >> nthreads >> count;
+                if (!is || levels < 1 || levels > 4 || nthreads < 1 || nthreads > 16 || count < 1 || count > 64)
+                {
+                    std::cout << "X " << k << " bad-input" << std::endl;
+                    return;
+                }
+                std::vector<ParSet> sets(count);
+                for (auto& s : sets)
+                {
+                    DimensionReductionMethod m = MultidimensionalScaling;
+                    is >> s.meth >> s.d >> s.k >> s.n;
+                    if (!is || !method_of(s.meth, m) || s.meth == "klle" || s.n < 0 || s.n > 4096 ||
+                        !read_matrix(is, s.n, s.n, s.T))
+                    {
+                        std::cout << "X " << k << " bad-input" << std::endl;
+                        return;
+                    }
+                    s.idx.resize(s.n);
+                    std::iota(s.idx.begin(), s.idx.end(), 0);
+                }
+                // (a) plain serial calls, one data set after another
+                for (auto& s : sets)
+                    par_one(s, 0);
+                // (b) the same calls from inside the application's own parallel region, one data set per thread
+                const int saved_levels = omp_get_max_active_levels();
+                omp_set_max_active_levels(levels);
+                int team = 0;
+#pragma omp parallel for num_threads(nthreads) schedule(static, 1)
+                for (int i = 0; i < count; i++)
+                {
+                    if (i == 0)
+                        team = omp_get_num_threads();
+                    par_one(sets[i], 1);
+                }
+                omp_set_max_active_levels(saved_levels);
+                std::cout << "P team " << team << " levels " << levels << " requested " << nthreads << std::endl;
+                for (int i = 0; i < count; i++)
+                {
+                    const ParSet& s = sets[i];
+                    for (int slot = 0; slot < 2; slot++)
+                    {
+                        const std::string pre = (slot ? "p" : "s");
+                        if (!s.err[slot].empty())
+                        {
+                            std::cout << "P " << pre << "err" << i << " " << s.err[slot] << std::endl;
+                            continue;
+                        }
+                        print_matrix((pre + "B" + std::to_string(i)).c_str(), s.B[slot]);
+                        print_matrix((pre + "emb" + std::to_string(i)).c_str(), s.E[slot]);
+                    }
+                }
             }
             else if (cmd == "TRI")
             {
